@@ -978,40 +978,51 @@ func dirSha(dir string) string {
 	return fmt.Sprintf("%x", sha256.Sum256([]byte(strings.Join(keys, "\n"))))[:16]
 }
 
-// policyOK evaluates the scenario's policy condition independently of policy.go: which of the
-// scenario's passwords (for which of its user names) satisfy it.
+// policyOK evaluates the scenario's policy condition independently of policy.go: the "user/tag" pairs
+// (for every user name the scenario can use, incl. names that equal a password) that satisfy it.
 func (r *runner) policyOK() []string {
 	out := []string{}
+	if r.sc.PolicyType != "zxcvbn" {
+		return out // no policy: python treats the empty list as "everything passes"
+	}
+	f := strings.Fields(r.sc.PolicyCond)
+	thr, _ := strconv.ParseFloat(f[2], 64)
+	users := map[string]bool{}
+	for u := range r.sc.Files {
+		users[u] = true
+	}
+	for _, st := range r.sc.Steps {
+		if st.U != "" {
+			users[st.U] = true
+		}
+		for _, u := range st.Users {
+			users[u] = true
+		}
+	}
 	for tag, pw := range r.sc.Passwords {
 		if tag == "" {
 			continue
 		}
-		ok, first := true, true
-		if r.sc.PolicyType == "zxcvbn" {
-			f := strings.Fields(r.sc.PolicyCond)
-			thr, _ := strconv.ParseFloat(f[2], 64)
-			for u := range r.sc.Files {
-				sc := zxcvbn.PasswordStrength(pw, []string{u, "whawty"})
-				var v float64
-				switch f[0] {
-				case "score":
-					v = float64(sc.Score)
-				case "entropy":
-					v = sc.Entropy
-				case "time":
-					v = sc.CrackTime
-				}
-				if !first && ok != (v >= thr) {
-					panic("scenario password " + tag + " has a user-dependent policy verdict")
-				}
-				ok, first = v >= thr, false
+		for u := range users {
+			sc := zxcvbn.PasswordStrength(pw, []string{u, "whawty"})
+			var v float64
+			switch f[0] {
+			case "score":
+				v = float64(sc.Score)
+			case "entropy":
+				v = sc.Entropy
+			case "time":
+				v = sc.CrackTime
 			}
-		}
-		if ok {
-			out = append(out, tag)
+			if v >= thr {
+				out = append(out, u+"/"+tag)
+			}
 		}
 	}
 	sort.Strings(out)
+	if len(out) == 0 {
+		out = append(out, "nobody/nothing")
+	}
 	return out
 }
 
